@@ -68,7 +68,7 @@ class GramGen:
             return rng.choice(['@@sv', '@@global.x'])
         return name
 
-    def sentence(self, rng, max_depth=9, max_tokens=120, stateless=True):
+    def sentence(self, rng, max_depth=9, max_tokens=120, stateless=True, start=None):
         toks = []
         if stateless:
             self.uses = {}      # a case must be a pure function of its seed: no steering across sentences
@@ -86,7 +86,7 @@ class GramGen:
             self.uses[p.number] = self.uses.get(p.number, 0) + 1
             for s in p.prod:
                 expand(s, budget - 1)
-        expand(self.start, max_depth)
+        expand(start or self.start, max_depth)
         return ' '.join(toks)
 
     def _pdepth(self, p):
